@@ -186,7 +186,7 @@ def crash_task(task, wdir, res):
 def run(run):
     quick = run.tier == "quick"
     tmpls = list(C.TEMPLATES)
-    reps = 1 if quick else 12
+    reps = 1 if quick else 4
     dry = []
     for t in tmpls:
         # the templates in which the unchanged tree loses nothing get more histories: they carry the detection power
@@ -200,7 +200,7 @@ def run(run):
     run.parallel(dry_task, dry)
     plans = [json.loads(x) for x in run.result.sets.pop("plan", set())]
     tasks = []
-    cap = 2 if quick else 40
+    cap = 2 if quick else 10
     for tmpl, seed, buffered, pts in sorted(plans):
         tasks.append({"name": f"{tmpl}-kill", "tmpl": tmpl, "seed": seed, "buffered": buffered, "point": "kill", "nth": 0})
         for point, count in pts:
